@@ -86,6 +86,8 @@ func runBackend(thorough bool, budget time.Duration, only string) *backendResult
 	phase("tables", func() { tableChecks(cc) })
 	phase("group-cases", func() { groupCases(thorough, cc) })
 	phase("repeat", func() { repeatCases(cc) })
+	phase("dest", func() { destCases(cc) })
+	phase("predicates", func() { predicateCases(cc) })
 	phase("ladder", func() { ladderCases(thorough, cc) })
 	phase("field-patterns", func() {
 		ev, cl := fieldPatternFamily(func(f finding) { patternFindings = append(patternFindings, f) })
@@ -378,7 +380,10 @@ func replay() {
 				failed = true
 				return key + ": " + what
 			}
-			return "ok, " + ptStr(s[m.ops[oi].dst].m)
+			if k := m.ops[oi].kind; k >= gXLoad && k <= gXNeg {
+				return "ok, xy = " + ptStr(s.xm)
+			}
+			return "ok, " + ptStr(s.r[m.ops[oi].dst].m)
 		}, idx)
 		if failed {
 			os.Exit(1)
@@ -397,6 +402,10 @@ func replay() {
 			ladderCases(false, cc)
 		case rp.Family == "repeat":
 			repeatCases(cc)
+		case rp.Family == "dest":
+			destCases(cc)
+		case rp.Family == "predicates":
+			predicateCases(cc)
 		case rp.Family == "addxy-volume":
 			volumeAddXY(false, cc)
 		case rp.Family == "bma-volume":
